@@ -228,14 +228,19 @@ def check_against_step(ticks, lo, hi, st, mag):
     return bad
 
 
-def check(run, a, b, m):
+def check(run, a, b, m, prior=()):
+    """prior: counts the SAME scale instance was asked for (and whose ticks were consumed) before ticks(m)"""
     inp = {"domain": [a, b], "m": m}
+    if prior:
+        inp["prior_ticks_calls"] = list(prior)
     lo, hi = min(a, b), max(a, b)
     mag = max(abs(a), abs(b))
     M = 10 if m is None else m
     ok, s = run.guard(lambda: LinearScale().domain([a, b]), "C13.exception", inp)
     if not ok:
         return 0
+    for p in prior:
+        run.guard(lambda: list(s.ticks() if p is None else s.ticks(p)), "C13.exception", inp)
     ok, ticks = run.guard(lambda: list(s.ticks() if m is None else s.ticks(m)), "C13.exception", inp)
     if not ok:
         return 0
@@ -300,9 +305,9 @@ def check(run, a, b, m):
     return n
 
 
-def one(run, a, b, m):
-    n = check(run, a, b, m)
-    run.case(("T", a, b, m), nontrivial=n >= 2)
+def one(run, a, b, m, prior=()):
+    n = check(run, a, b, m, prior)
+    run.case(("T", a, b, m, tuple(prior)), nontrivial=n >= 2)
 
 
 def body(run):
@@ -324,6 +329,12 @@ def body(run):
     if done:
         run.exhaustive("%d grid domains (signed grid of %d values, quantifier-filtered) x %d counts; %d threshold/multiple domains"
                        % (len(doms), len(signed_grid(grid)), len(ms), len(thr)))
+    nh = 0
+    for a, b in doms[::7]:
+        for prior, m in (((None,), 50), ((50,), None), ((1,), 37), ((37, None), 2)):
+            one(run, a, b, m, prior)
+            nh += 1
+    run.exhaustive("%d histories: ticks(p) on the same instance before ticks(m)" % nh)
     while run.left() > 0:
         for _ in range(200):
             a, b = rand_domain(run.rng)
@@ -332,7 +343,7 @@ def body(run):
 
 def replay(run, inp):
     a, b = inp["domain"]
-    one(run, float(a), float(b), inp["m"])
+    one(run, float(a), float(b), inp["m"], tuple(inp.get("prior_ticks_calls", ())))
 
 
 if __name__ == "__main__":
